@@ -62,7 +62,7 @@ def _case(draw, unit):
     case = {'dim': dim, 'direction': direction, 'wave': w, 'wave_row': w2, 'mode': mode, 'J': J, 'size': size,
             'N': draw(st.sampled_from([1, 2])), 'C': draw(st.sampled_from([1, 2])),
             'reused': draw(st.integers(0, 3)) == 0,
-            'rx': draw(core.recipe_strategy()), 'rg': draw(core.recipe_strategy()), 'k': draw(st.integers(0, 10**6))}
+            'rx': draw(core.recipe_strategy()), 'rg': draw(core.recipe_strategy(kinds=core.RECIPE_KINDS + ['contrast'])), 'k': draw(st.integers(0, 10**6))}
     if direction == 'synthesis':
         names = ['low'] + list(range(J))
         k = draw(st.sampled_from(['all', 'one', 'one', 'rand', 'highs_only']))
